@@ -1,4 +1,7 @@
 import FiberModel.C03.Complete
+import FiberModel.C03.Parse
+import FiberModel.C03.Serve
+import FiberModel.C03.Trim
 import FiberModel.C03.Known
 import FiberModel.C02.Props
 /-
@@ -7,16 +10,15 @@ C03 — property theorems (only).
 Staging of the completeness statement as in DESIGN §6 C03:
   (i)    non-greedy parameter followed by a literal, non-greedy / greedy last parameter   — proved
   (ii-a) greedy parameter followed by a literal whose search text occurs once in the rest  — proved
-  (ii-b) greedy parameter whose literal re-occurs later (`findGreedyParamLen`)             — NOT proved;
-         covered only by the exhaustive small-scope enumeration and the random stream (tests).
-Hence the main theorem is `fill_match_complete_partial`; the full statement is in its comment.
+  (ii-b) greedy parameter whose literal re-occurs later (`findGreedyParamLen`)             — proved
+         (Greedy.lean: `count_eq_cntR`, `count_fill`, `greedy_strip`).
+The main theorem keeps the name `fill_match_complete_partial` only because of known finding K1
+(search text = literal minus trailing slashes); the full statement is in its comment.
 -/
 namespace C03
 open B C02
 
 /-! ### normalisation commutes with filling -/
-
-def foldBytes (cfg : Config) (s : Bytes) : Bytes := if cfg.caseSensitive then s else toLower s
 
 /-- **normalise_commutes (letter case).** Case-folding a filled path is filling the case-folded
     pattern with the case-folded values. -/
@@ -24,7 +26,7 @@ theorem fill_fold (cfg : Config) : (p : Pat) → (vals : List Bytes) →
     fill (foldPat cfg p) (foldVals cfg vals) = foldBytes cfg (fill p vals)
   | [], vals => by
     unfold foldPat foldBytes fill
-    cases cfg.caseSensitive <;> simp [fill, toLower]
+    cases cfg.caseSensitive <;> simp [toLower]
   | t :: rest, vals => by
     have ih := fill_fold cfg rest
     unfold foldPat foldVals foldBytes at *
@@ -170,16 +172,25 @@ theorem foldPat_escFree (cfg : Config) (p : Pat) (h : litsEscFree p) : litsEscFr
 
 /-! ## Completeness -/
 
-/-- **fill → match completeness, stages (i) and (ii-a).**
+/-- **fill → match completeness** (all stages of DESIGN §6 C03: (i) non-greedy / last parameters,
+    (ii-a) greedy parameters whose delimiter occurs once, (ii-b) greedy parameters whose delimiter
+    re-occurs behind them — `findGreedyParamLen` / `PartCount`).
 
     Full statement (DESIGN): `Delimited p → CleanFill p vals → getMatch (parse p) (fill p vals) = some vals`.
-    Proved here under two further hypotheses, both decidable and both reported per case by the driver:
-    * `CleanFillCmp` instead of `CleanFill`: the occurrence condition is taken for the literal
-      *without its trailing slashes* (what the matcher searches for). Where the two differ is
-      known finding K1 (`fill_match_witness_K1`).
-    * `greedyOnce`: behind a greedy parameter the following literal's search text occurs only once
-      in the rest of the path — stage (ii-b) (`findGreedyParamLen`, literal re-occurring later) is
-      not proved; it is covered by the exhaustive enumeration / random stream only (a test).
+    Proved here with `CleanFillCmp` instead of `CleanFill`: the occurrence condition is taken for
+    the literal *without its trailing slashes* (what the matcher searches for). Where the two differ
+    is known finding K1 (`fill_match_witness_K1`, `fill_match_complete_sentence_partial` below); that is the
+    only reason the theorem keeps the suffix `_partial`.
+
+    Which fillings the matcher serves behind a greedy parameter: with `K` the search text of the
+    following literal, `strings.Count(rest of the path, K)` non-overlapping occurrences are seen;
+    if that is more than one, `PartCount` (= Σ `strings.Count(literal, K)` over the literals behind
+    the parameter, the directly following one included) occurrences are cut off from the right
+    with `strings.LastIndex`. For a clean filling – the rest of the path holds exactly the literals'
+    occurrences of `K`, at any offset, overlapping ones included – no occurrence touches a value, so
+    the count from the left is `PartCount` (`count_fill`), as many can be cut from the right
+    (`count_eq_cntR`, also for self-overlapping `K` such as `--`), and the last cut is the
+    occurrence directly behind the value (`greedy_strip`).
 
     For every configuration (case folding), every token list `p` (with segment list `segs`), every
     value assignment `vals` and anything (`extra`) behind the filled path – e.g. trailing slashes
@@ -190,23 +201,35 @@ theorem fill_match_complete_partial {chk : Constraint → Bytes → Bool} (cfg :
     (hs : segsOf (foldPat cfg p) = some segs)
     (hd : Delimited p = true) (hesc : litsEscFree p)
     (hn : vals.length = (p.filter (·.isParam)).length)
-    (hcl : CleanFillCmp (foldPat cfg p) (foldVals cfg vals) = true)
-    (hgo : greedyOnce cmpOfConst (foldPat cfg p) (foldVals cfg vals) = true) :
+    (hcl : CleanFillCmp (foldPat cfg p) (foldVals cfg vals) = true) :
     getMatch chk segs (foldBytes cfg (fill p vals)) (fill p vals ++ extra) false = some vals := by
   obtain ⟨hcore, hm, hm2⟩ := segsOf_ok hs
   rw [← fill_fold]
-  exact getMatch_fill (foldPat cfg p) 0 0 segs _ vals _ hcore hm hm2
-    (by rw [foldPat_delimited]; exact hd) (foldPat_escFree cfg p hesc) hcl hgo
+  exact getMatch_fill (foldPat cfg p) 0 0 segs _ vals _ hcore hm hm2 (segsOf_partCount hs)
+    (by rw [foldPat_delimited]; exact hd) (foldPat_escFree cfg p hesc) hcl
     (pathFor_fill cfg p vals extra hn)
 
-/-- non-vacuity: `/api/:x-:y?/files/*` filled with `Ab`, ``, `a/b.txt` under the default
-    (case-insensitive) configuration -/
+/-- non-vacuity, stages (i)/(ii-a): `/api/:x-:y?/files/*` filled with `Ab`, ``, `a/b.txt` under the
+    default (case-insensitive) configuration -/
 example :
     let p : Pat := [.lit (b "/api/"), .named (b "x") false, .lit (b "-"), .named (b "y") true,
                     .lit (b "/files/"), .star]
     let vals := [b "Ab", [], b "a/b.txt"]
     (Delimited p && CleanFillCmp (foldPat {} p) (foldVals {} vals) &&
-     greedyOnce cmpOfConst (foldPat {} p) (foldVals {} vals) &&
+     (match segsOf (foldPat {} p) with
+      | some segs => getMatch (fun _ _ => true) segs (foldBytes {} (fill p vals)) (fill p vals) false == some vals
+      | none => false)) = true := by decide
+
+/-- non-vacuity, stage (ii-b): slash, star, the literal dash-dash-slash, plus, the literal
+    dash-dash-dash-x (self-overlapping search text "dash dash", which re-occurs in the later literal
+    twice by position, once by `strings.Count`) filled with `a-b`, `c/d`:
+    the hypotheses hold, `greedyOnce` fails (the loop of `findGreedyParamLen` runs), the route
+    matches with exactly these values. -/
+example :
+    let p : Pat := [.lit (b "/"), .star, .lit (b "--/"), .plus, .lit (b "---x")]
+    let vals := [b "a-b", b "c/d"]
+    (Delimited p && CleanFillCmp (foldPat {} p) (foldVals {} vals) &&
+     !greedyOnce cmpOfConst (foldPat {} p) (foldVals {} vals) &&
      (match segsOf (foldPat {} p) with
       | some segs => getMatch (fun _ _ => true) segs (foldBytes {} (fill p vals)) (fill p vals) false == some vals
       | none => false)) = true := by decide
@@ -219,6 +242,29 @@ theorem cleanFill_not_K1 (cfg : Config) (p : Pat) (vals : List Bytes)
   unfold Known.K1 at hk
   rw [h] at hk
   simpa using hk
+
+/-- **fill → match completeness in the sentence's own terms, outside known finding K1.** With the
+    property sentence's `CleanFill` (no additional occurrence of the *literal* that follows a
+    parameter) and the case outside the region `Known.K1`: the route matches and the values come
+    back exactly. `_partial` only for the K1 hypothesis. -/
+theorem fill_match_complete_sentence_partial {chk : Constraint → Bytes → Bool} (cfg : Config)
+    {p : Pat} {vals : List Bytes} {segs : List Seg} (extra : Bytes)
+    (hs : segsOf (foldPat cfg p) = some segs)
+    (hd : Delimited p = true) (hesc : litsEscFree p)
+    (hn : vals.length = (p.filter (·.isParam)).length)
+    (hcl : CleanFill (foldPat cfg p) (foldVals cfg vals) = true)
+    (hk : Known.K1 cfg p vals = false) :
+    getMatch chk segs (foldBytes cfg (fill p vals)) (fill p vals ++ extra) false = some vals :=
+  fill_match_complete_partial cfg extra hs hd hesc hn (cleanFill_not_K1 cfg p vals hcl hk)
+
+/-- non-vacuity: `/ab/+/a/+.tar.gz`-like pattern without trailing-slash literals, the delimiter `.`
+    re-occurring in a later literal; sentence-level `CleanFill`, outside K1 -/
+example :
+    let cfg : Config := { caseSensitive := true, strictRouting := true }
+    let p : Pat := [.lit (b "/v"), .plus, .lit (b ".t"), .star, .lit (b ".tar.gz")]
+    let vals := [b "1/2", b "A-b"]
+    (Delimited p && CleanFill (foldPat cfg p) (foldVals cfg vals) && !Known.K1 cfg p vals &&
+     !greedyOnce cmpOfConst (foldPat cfg p) (foldVals cfg vals)) = true := by decide
 
 /-- K1 witness (strict, case-sensitive): named parameter followed by the literal dash-slash,
     value `a-b`. The fill creates no additional occurrence of the literal, yet the route does not
@@ -241,27 +287,6 @@ theorem case_ignored (cfg : Config) (hcs : cfg.caseSensitive = false) (hu : cfg.
     (configDependentPaths cfg a).2 = (configDependentPaths cfg c).2 := by
   unfold configDependentPaths
   simp [hcs, hu, h]
-
-theorem trimRight_append_same (s : Bytes) (c : Nat) (n : Nat) :
-    trimRight (s ++ List.replicate n c) c = trimRight s c := by
-  unfold trimRight
-  rw [List.reverse_append, List.reverse_replicate]
-  congr 1
-  induction n with
-  | zero => simp
-  | succ n ih => simp [List.replicate_succ, ih]
-
-theorem trimRight_of_last_ne (s : Bytes) (c : Nat) (h : s.getLast? ≠ some c) : trimRight s c = s := by
-  unfold trimRight
-  cases hr : s.reverse with
-  | nil => simp [List.reverse_eq_nil_iff.mp hr]
-  | cons x xs =>
-    have hx : s.getLast? = some x := by
-      rw [List.getLast?_eq_head?_reverse, hr]; rfl
-    have : (x == c) = false := by
-      rw [beq_eq_false_iff_ne]; intro hh; subst hh; exact h hx
-    simp only [List.dropWhile_cons, this, Bool.false_eq_true, if_false]
-    rw [← hr, List.reverse_reverse]
 
 /-- **A trailing slash is ignored unless StrictRouting:** a request path that does not end in a
     slash and the same path with any number of slashes appended get the same detection path. -/
@@ -326,6 +351,40 @@ theorem trailing_slash_ignored (cfg : Config) (hst : cfg.strictRouting = false) 
         rw [this]
   · simp only [Bool.not_true, Bool.false_eq_true, if_false]
     exact key orig hne hl
+
+/-- the routing path as a function of the user-visible (decoded) path alone -/
+def detOfPath (cfg : Config) (path : Bytes) : Bytes :=
+  (configDependentPaths { cfg with unescapePath := false } path).2
+
+theorem det_eq_detOfPath (cfg : Config) (orig : Bytes) :
+    (configDependentPaths cfg orig).2 = detOfPath cfg (configDependentPaths cfg orig).1 := by
+  unfold detOfPath configDependentPaths; simp
+
+/-- **Letter case is ignored unless CaseSensitive, also with UnescapePath:** two requests whose
+    user-visible (percent-decoded iff UnescapePath) paths differ only in letter case get the same
+    detection path. -/
+theorem case_ignored_decoded (cfg : Config) (hcs : cfg.caseSensitive = false) (a c : Bytes)
+    (h : toLower (configDependentPaths cfg a).1 = toLower (configDependentPaths cfg c).1) :
+    (configDependentPaths cfg a).2 = (configDependentPaths cfg c).2 := by
+  rw [det_eq_detOfPath, det_eq_detOfPath cfg c]
+  exact case_ignored { cfg with unescapePath := false } hcs rfl _ _ h
+
+/-- **A trailing slash is ignored unless StrictRouting, also with UnescapePath:** if the user-visible
+    path of `c` is that of `a` (non-empty, not ending in a slash) plus any number of slashes – written
+    as `/` or, with UnescapePath, as `%2F` – both get the same detection path. -/
+theorem trailing_slash_ignored_decoded (cfg : Config) (hst : cfg.strictRouting = false) (a c : Bytes) (n : Nat)
+    (hne : (configDependentPaths cfg a).1 ≠ []) (hl : (configDependentPaths cfg a).1.getLast? ≠ some SLASH)
+    (h : (configDependentPaths cfg c).1 = (configDependentPaths cfg a).1 ++ List.replicate n SLASH) :
+    (configDependentPaths cfg c).2 = (configDependentPaths cfg a).2 := by
+  rw [det_eq_detOfPath, det_eq_detOfPath cfg a, h]
+  exact trailing_slash_ignored { cfg with unescapePath := false } hst rfl _ hne hl n
+
+/-- non-vacuity: UnescapePath on, `/a%2Fb` + `%2f` vs `/A/b` -/
+example :
+    let cfg : Config := { unescapePath := true }
+    (configDependentPaths cfg (b "/A/b")).1 = b "/A/b" ∧
+    (configDependentPaths cfg (b "/a%2Fb%2f")).1 = b "/a/b" ++ List.replicate 1 SLASH := by
+  constructor <;> simp [configDependentPaths, unquote, b, hexNibble] <;> decide
 
 /-- **Percent-decoding applies only with UnescapePath.** -/
 theorem unescape_only_with_flag (cfg : Config) (orig : Bytes) :
@@ -472,5 +531,307 @@ theorem rpm_eq_single_route_dispatch {chk : Constraint → Bytes → Bool} {cfg 
               rw [beq_iff_eq] at h ⊢; exact h.symm
             simp [this]
   · cases hr
+
+/-! ## End to end: registration, request normalisation, `Route.match`, dispatch, RoutePatternMatch -/
+
+theorem text_len_ge2 {p : Pat} (hwf : WFPat p = true) (hp : p.filter (·.isParam) ≠ []) : 2 ≤ (patText p).length := by
+  obtain ⟨hok, _⟩ := wfPat_tokOK hwf
+  obtain ⟨l', rest, rfl⟩ := wfPat_head hwf
+  have hr : rest ≠ [] := by
+    intro h; subst h; exact hp rfl
+  have := List.length_pos_iff.mpr (patText_ne_nil (fun x hx => hok x (List.mem_cons_of_mem _ hx)) hr)
+  rw [patText_cons]
+  simp only [Tok.text, List.length_append, List.length_cons]
+  omega
+
+/-- **The filled path is served, end to end** (model of `app.Get(pattern)` + one request +
+    `RoutePatternMatch`). For every configuration, every token list `p` of the documented syntax
+    (`WFPat`) that is `Delimited`, every assignment `vals` that is clean w.r.t. the matcher's search
+    texts (`CleanFillCmp`; = the sentence's `CleanFill` outside known finding K1, see
+    `fill_served_sentence_partial`), with `trailingOK` (without StrictRouting the fill does not end
+    in a slash), and every request path `orig` whose user-visible form (percent-decoded iff
+    UnescapePath) is the fill *up to the letter case the configuration ignores*:
+
+    * registering the pattern text does not panic and yields a route `r`,
+    * dispatching the request to an app holding only `r` (tree index, `Route.match` with its `/`,
+      `/*` and parameter-free shortcuts, `getMatch`) matches and writes exactly the values as they
+      stand in the request (`slicesOf`: the user-visible path cut at the value boundaries; these
+      are `vals` themselves when the path is the fill as written, `fill_served_values_partial`),
+    * `RoutePatternMatch(orig, text, cfg)` is true.
+
+    This closes the gap between the induction over segment lists (`fill_match_complete_partial`) and
+    the route the app really holds: the parser on the prettified text (`parseRoute_patText`), the
+    case folding of literals and names, the trailing-slash trimming on both sides. `_partial` only
+    because `CleanFillCmp` stands in for `CleanFill` (K1). -/
+theorem fill_served_partial {chk : Constraint → Bytes → Bool} (cfg : Config) {p : Pat} {vals : List Bytes}
+    (orig : Bytes) (hwf : WFPat p = true) (hd : Delimited p = true)
+    (hn : vals.length = (p.filter (·.isParam)).length)
+    (hcl : CleanFillCmp (foldPat cfg p) (foldVals cfg vals) = true)
+    (htr : trailingOK cfg p vals = true)
+    (horig : foldBytes cfg (configDependentPaths cfg orig).1 = foldBytes cfg (fill p vals)) :
+    ∃ r, register cfg false (patText p) = some r ∧
+      dispatch1 chk r (configDependentPaths cfg orig).2 (configDependentPaths cfg orig).1 =
+        some (slicesOf p vals (configDependentPaths cfg orig).1) ∧
+      routePatternMatch chk cfg orig (patText p) = some true := by
+  obtain ⟨hok, hsh⟩ := wfPat_tokOK hwf
+  have hokq := tokOK_prettyPat cfg hok
+  have hshq : shapeOK (prettyPat cfg p) = true := by rw [shapeOK_pretty]; exact hsh
+  obtain ⟨sr, hsr⟩ := segsOf_isSome hwf
+  obtain ⟨sp, hsp⟩ := segsOf_isSome' hokq
+  obtain ⟨hpretty, hraw⟩ := prettyPattern_text hwf htr
+  rw [← patText_prettyPat] at hpretty
+  have hclean : removeEscapeChar (patText (prettyPat cfg p)) = patText (prettyPat cfg p) :=
+    removeEscapeChar_id _ (patText_noBSL _ hokq)
+  have hreg : register cfg false (patText p) = some
+      { pathRaw := patText p, path := patText (prettyPat cfg p), params := paramNames sr,
+        parser := { segs := sp, params := paramNames sp }, use := false,
+        star := patText (prettyPat cfg p) == [SLASH, STAR], root := patText (prettyPat cfg p) == [SLASH] } := by
+    unfold register
+    simp only [hraw, hpretty, hclean, parseRoute_patText hwf, parseRoute_patText' hokq hshq, hsr, hsp,
+      Option.map_some]
+  have hdet := det_of_fill htr horig
+  have hlenr : (paramNames sr).length = (p.filter (·.isParam)).length := segsOf_params_len hsr
+  have hlenp : (paramNames sp).length = (p.filter (·.isParam)).length := by
+    rw [segsOf_params_len hsp, filter_isParam_pretty]
+  generalize hup : (configDependentPaths cfg orig).1 = upath at *
+  have huplen : upath.length = (fill p vals).length := by
+    have := congrArg List.length horig
+    simpa [foldBytes_length] using this
+  have hne : orig ≠ [] := by
+    intro h
+    subst h
+    obtain ⟨l', rest, rfl⟩ := wfPat_head hwf
+    have : upath = [] := by
+      rw [← hup]; unfold configDependentPaths; simp only; split <;> simp [unquote]
+    rw [this] at huplen
+    simp [fill] at huplen
+  -- the dispatch
+  have hdisp : routeMatch chk
+      { pathRaw := patText p, path := patText (prettyPat cfg p), params := paramNames sr,
+        parser := { segs := sp, params := paramNames sp }, use := false,
+        star := patText (prettyPat cfg p) == [SLASH, STAR], root := patText (prettyPat cfg p) == [SLASH] }
+      (foldBytes cfg (fill p vals)) upath = some (slicesOf p vals upath) := by
+    by_cases hnp : p.filter (·.isParam) = []
+    · -- a single literal
+      obtain ⟨l, rfl⟩ := wfPat_noParam hwf hnp
+      have hv : vals = [] := List.eq_nil_of_length_eq_zero (by rw [hn, hnp]; rfl)
+      subst hv
+      have hT : patText (prettyPat cfg [Tok.lit l]) = foldBytes cfg l := by
+        rw [patText_prettyPat]; simp [patText, Tok.text]
+      have hF : fill [Tok.lit l] [] = l := by simp [fill]
+      have hS : slicesOf [Tok.lit l] [] upath = [] := by simp [slicesOf]
+      unfold routeMatch
+      simp only [hT, hF, hS]
+      split
+      · rfl
+      · have hstar : (foldBytes cfg l == [SLASH, STAR]) = false := by
+          rw [beq_eq_false_iff_ne]
+          intro h
+          have := star_shape (cfg := cfg) hwf (by simpa [patText, Tok.text] using h)
+          simp at this
+        have hpl : ¬ ((paramNames sr).length > 0) := by rw [hlenr, hnp]; simp
+        simp [hstar, hpl]
+    · -- at least one parameter
+      have h2 := text_len_ge2 hwf hnp
+      have hroot : (patText (prettyPat cfg p) == [SLASH]) = false := by
+        rw [beq_eq_false_iff_ne]
+        intro h
+        have := congrArg List.length h
+        rw [patText_prettyPat, foldBytes_length] at this
+        simp at this; omega
+      unfold routeMatch
+      simp only [hroot, Bool.false_and, Bool.false_eq_true, if_false]
+      by_cases hstar : patText (prettyPat cfg p) = [SLASH, STAR]
+      · have hp := star_shape (cfg := cfg) hwf (by rw [← patText_prettyPat]; exact hstar)
+        subst hp
+        have hbeq : (patText (prettyPat cfg [Tok.lit [SLASH], Tok.star]) == [SLASH, STAR]) = true := by
+          rw [hstar]; rfl
+        simp only [hbeq, if_true]
+        match vals, hn, huplen with
+        | [v], _, huplen =>
+          simp only [fill, List.headD_cons, List.length_append, List.length_cons, List.length_nil] at huplen
+          simp only [slicesOf, List.headD_cons, List.length_cons, List.length_nil]
+          rw [List.take_of_length_le (by simp only [List.length_drop]; omega)]
+      · have hbeq : (patText (prettyPat cfg p) == [SLASH, STAR]) = false := beq_eq_false_iff_ne.mpr hstar
+        have hpl : (paramNames sr).length > 0 := by
+          rw [hlenr]; exact List.length_pos_iff.mpr hnp
+        simp only [hbeq, Bool.false_eq_true, if_false, hpl, if_true]
+        -- the induction, on the routed token list
+        obtain ⟨hcore, hm, hm2⟩ := segsOf_ok hsp
+        rw [← fill_fold, ← fill_ren (foldBytes cfg), ← prettyPat_eq]
+        exact getMatch_fill (chk := chk) (prettyPat cfg p) 0 0 sp (foldVals cfg vals) (slicesOf p vals upath) upath
+          hcore hm hm2 (segsOf_partCount hsp)
+          (by rw [prettyPat_eq, delimited_ren, foldPat_delimited]; exact hd)
+          (by rw [prettyPat_eq]; exact litsEscFree_ren _ _ (foldPat_escFree cfg p (wfPat_escFree hwf)))
+          (by rw [prettyPat_eq, cleanFillWith_ren]; exact hcl)
+          (by rw [prettyPat_eq]; exact pathFor_ren _ _ _ _ _ (pathFor_slices cfg p vals upath hn))
+  refine ⟨_, hreg, ?_, ?_⟩
+  · rw [dispatch1_eq_routeMatch hreg, hdet]
+    exact hdisp
+  · rw [rpm_eq_single_route_dispatch hreg orig hne
+      (by simp only [hlenr, hlenp])
+      (by
+        simp only [beq_iff_eq]
+        intro hroot hpar
+        rw [hlenp] at hpar
+        have h2 := text_len_ge2 hwf (List.length_pos_iff.mp hpar)
+        have := congrArg List.length hroot
+        rw [patText_prettyPat, foldBytes_length] at this
+        simp at this; omega)]
+    rw [dispatch1_eq_routeMatch hreg, hup, hdet, hdisp]
+    rfl
+
+/-- "…and Params returns exactly those values": when the user-visible path is the fill as written,
+    the values written are `vals`. -/
+theorem fill_served_values_partial {chk : Constraint → Bytes → Bool} (cfg : Config) {p : Pat} {vals : List Bytes}
+    (orig : Bytes) (hwf : WFPat p = true) (hd : Delimited p = true)
+    (hn : vals.length = (p.filter (·.isParam)).length)
+    (hcl : CleanFillCmp (foldPat cfg p) (foldVals cfg vals) = true)
+    (htr : trailingOK cfg p vals = true)
+    (horig : (configDependentPaths cfg orig).1 = fill p vals) :
+    ∃ r, register cfg false (patText p) = some r ∧
+      dispatch1 chk r (configDependentPaths cfg orig).2 (configDependentPaths cfg orig).1 = some vals ∧
+      routePatternMatch chk cfg orig (patText p) = some true := by
+  obtain ⟨r, h1, h2, h3⟩ := fill_served_partial (chk := chk) cfg orig hwf hd hn hcl htr (by rw [horig])
+  refine ⟨r, h1, ?_, h3⟩
+  rw [h2, horig, slicesOf_fill p vals hn]
+
+/-- the same in the sentence's terms: `CleanFill` and outside known finding K1 -/
+theorem fill_served_sentence_partial {chk : Constraint → Bytes → Bool} (cfg : Config) {p : Pat} {vals : List Bytes}
+    (orig : Bytes) (hwf : WFPat p = true) (hd : Delimited p = true)
+    (hn : vals.length = (p.filter (·.isParam)).length)
+    (hcl : CleanFill (foldPat cfg p) (foldVals cfg vals) = true) (hk : Known.K1 cfg p vals = false)
+    (htr : trailingOK cfg p vals = true)
+    (horig : foldBytes cfg (configDependentPaths cfg orig).1 = foldBytes cfg (fill p vals)) :
+    ∃ r, register cfg false (patText p) = some r ∧
+      dispatch1 chk r (configDependentPaths cfg orig).2 (configDependentPaths cfg orig).1 =
+        some (slicesOf p vals (configDependentPaths cfg orig).1) ∧
+      routePatternMatch chk cfg orig (patText p) = some true :=
+  fill_served_partial cfg orig hwf hd hn (cleanFill_not_K1 cfg p vals hcl hk) htr horig
+
+/-- non-vacuity: case-insensitive, non-strict; mixed-case pattern `/Api/:Id-*.x/+` (names and
+    literals are folded by `register`), the request in yet another letter case: the values come back
+    as the request wrote them -/
+example :
+    let cfg : Config := {}
+    let p : Pat := [.lit (b "/Api/"), .named (b "Id") false, .lit (b "-"), .star, .lit (b ".x/"), .plus]
+    let vals := [b "A7", b "b.c-d", b "e/F g"]
+    let orig := b "/aPI/A7-b.C-d.X/e/F g"
+    (WFPat p && Delimited p && CleanFill (foldPat cfg p) (foldVals cfg vals) && !Known.K1 cfg p vals &&
+     trailingOK cfg p vals &&
+     (foldBytes cfg (configDependentPaths cfg orig).1 == foldBytes cfg (fill p vals)) &&
+     (match register cfg false (patText p) with
+      | some r => dispatch1 (fun _ _ => true) r (configDependentPaths cfg orig).2 (configDependentPaths cfg orig).1 ==
+          some [b "A7", b "b.C-d", b "e/F g"]
+      | none => false)) = true := by decide
+
+/-- **`Params(name)` hands back the value written for that name** (ctx.go `Params`: first declared
+    name equal to the key – exactly, or ignoring letter case unless CaseSensitive – decides): for a
+    route whose declared names are pairwise distinct under that comparison, looking up every
+    declared name in turn returns exactly the values `getMatch` wrote. Together with
+    `fill_served_partial` this is "Params returns exactly those values". (That the generated names
+    of `*`/`+` parameters – `*1`, `*2`, `+1` … – are distinct needs injectivity of decimal rendering
+    and is checked per case instead: the harness observes `Params` by name.) -/
+theorem params_return_values (cfg : Config) (names vals : List Bytes) (hlen : names.length = vals.length)
+    (hdist : names.Pairwise (fun a c => nameMatch cfg a c = false)) :
+    names.map (paramsLookup cfg names vals) = vals :=
+  paramsLookup_distinct cfg [] names [] vals rfl hlen hdist
+
+example :
+    let names := [b "id", b "*1", b "+1"]
+    (decide (names.Pairwise (fun a c => nameMatch {} a c = false)) &&
+     names.map (paramsLookup {} names [b "7", [], b "x/y"]) == [b "7", [], b "x/y"]) = true := by decide
+
+/-! ## RoutePatternMatch = dispatch for the documented syntax, without run-time hypotheses -/
+
+theorem text_slash_noParam {q : Pat} (hok : ∀ t ∈ q, TokOK t) (h : patText q = [SLASH]) :
+    q.filter (·.isParam) = [] := by
+  cases q with
+  | nil => rfl
+  | cons t rest =>
+    have hokt := hok t (List.mem_cons_self ..)
+    have hokr : ∀ x ∈ rest, TokOK x := fun x hx => hok x (List.mem_cons_of_mem _ hx)
+    rw [patText_cons] at h
+    have hlen := congrArg List.length h
+    simp only [List.length_append, List.length_cons, List.length_nil] at hlen
+    have htl : 0 < t.text.length := List.length_pos_iff.mpr (tokText_ne_nil hokt)
+    have hr : rest = [] := by
+      by_cases hr : rest = []
+      · exact hr
+      · have := List.length_pos_iff.mpr (patText_ne_nil hokr hr); omega
+    subst hr
+    simp only [patText, List.flatMap_nil, List.append_nil] at h
+    cases t with
+    | lit l => rfl
+    | named n o => simp [Tok.text, COLON, SLASH] at h
+    | star => simp [Tok.text, STAR, SLASH] at h
+    | plus => simp [Tok.text, PLUS, SLASH] at h
+
+/-- **RoutePatternMatch answers exactly as dispatching the path to an app holding only that route —
+    for every pattern of the documented syntax, with no further hypothesis.** The two parser facts
+    `rpm_eq_single_route_dispatch` assumes (the pattern as written and the routed, possibly
+    slash-trimmed and case-folded pattern agree on having parameters; a root pattern declares none)
+    are proved here for every `WFPat` token list, every configuration: registration does not panic,
+    and for every non-empty request path the two answers agree. (For raw pattern text outside the
+    token syntax the two facts stay run-time validated, `hypViolated` in the driver.) -/
+theorem rpm_eq_dispatch_documented {chk : Constraint → Bytes → Bool} (cfg : Config) {p : Pat}
+    (hwf : WFPat p = true) (reqPath : Bytes) (hne : reqPath ≠ []) :
+    ∃ r, register cfg false (patText p) = some r ∧
+      routePatternMatch chk cfg reqPath (patText p) =
+        some (dispatch1 chk r (configDependentPaths cfg reqPath).2 (configDependentPaths cfg reqPath).1).isSome := by
+  obtain ⟨hok, hsh⟩ := wfPat_tokOK hwf
+  have hokq := tokOK_prettyPat cfg hok
+  have hshq : shapeOK (prettyPat cfg p) = true := by rw [shapeOK_pretty]; exact hsh
+  obtain ⟨sr, hsr⟩ := segsOf_isSome hwf
+  -- the routed text is the text of a well-formed token list with as many parameters
+  obtain ⟨l', rest, hp⟩ := wfPat_head hwf
+  obtain ⟨T', hT⟩ : ∃ T', patText p = SLASH :: T' := by rw [hp, patText_cons]; exact ⟨_, rfl⟩
+  have hraw : rawPattern (patText p) = patText p := by rw [hT]; unfold rawPattern; simp
+  obtain ⟨q', hokq', hshq', htext, hcount⟩ : ∃ q', (∀ t ∈ q', TokOK t) ∧ shapeOK q' = true ∧
+      patText q' = prettyPattern cfg (patText p) ∧
+      (q'.filter (·.isParam)).length = (p.filter (·.isParam)).length := by
+    have hpp : prettyPattern cfg (patText p) =
+        if (!cfg.strictRouting && decide ((foldBytes cfg (patText p)).length > 1)) = true
+        then trimRight (foldBytes cfg (patText p)) SLASH else foldBytes cfg (patText p) := by
+      rw [hT]
+      unfold prettyPattern
+      simp only [List.isEmpty_cons, Bool.false_eq_true, if_false, List.headD_cons, bne_self_eq_false]
+      have hfold : (if (!cfg.caseSensitive) = true then toLower (SLASH :: T') else SLASH :: T') =
+          foldBytes cfg (SLASH :: T') := by
+        unfold foldBytes; cases cfg.caseSensitive <;> rfl
+      rw [hfold]
+    rw [hpp, ← patText_prettyPat]
+    split
+    · obtain ⟨q', h1, h2, h3, h4⟩ := trim_text hokq hshq
+      exact ⟨q', h1, h2, h3, by rw [h4, filter_isParam_pretty]⟩
+    · exact ⟨prettyPat cfg p, hokq, hshq, rfl, filter_isParam_pretty cfg p⟩
+  obtain ⟨sp, hsp⟩ := segsOf_isSome' hokq'
+  have hclean : removeEscapeChar (patText q') = patText q' := removeEscapeChar_id _ (patText_noBSL _ hokq')
+  have hreg : register cfg false (patText p) = some
+      { pathRaw := patText p, path := patText q', params := paramNames sr,
+        parser := { segs := sp, params := paramNames sp }, use := false,
+        star := patText q' == [SLASH, STAR], root := patText q' == [SLASH] } := by
+    unfold register
+    simp only [hraw, ← htext, hclean, parseRoute_patText hwf, parseRoute_patText' hokq' hshq', hsr, hsp,
+      Option.map_some]
+  have hlenr : (paramNames sr).length = (p.filter (·.isParam)).length := segsOf_params_len hsr
+  have hlenp : (paramNames sp).length = (p.filter (·.isParam)).length := by
+    rw [segsOf_params_len hsp, hcount]
+  refine ⟨_, hreg, ?_⟩
+  exact rpm_eq_single_route_dispatch hreg reqPath hne (by simp only [hlenr, hlenp])
+    (by
+      simp only [beq_iff_eq]
+      intro hroot hpar
+      rw [segsOf_params_len hsp, text_slash_noParam hokq' hroot] at hpar
+      simp at hpar)
+
+/-- non-vacuity: pattern `/Shop/:id?/` (trailing slash, optional parameter, upper case) -/
+example :
+    let p : Pat := [.lit (b "/Shop/"), .named (b "id") true, .lit (b "/")]
+    (WFPat p && (match register {} false (patText p) with
+      | some r => (routePatternMatch (fun _ _ => true) {} (b "/shop") (patText p) ==
+          some (dispatch1 (fun _ _ => true) r (configDependentPaths {} (b "/shop")).2 (configDependentPaths {} (b "/shop")).1).isSome)
+          && routePatternMatch (fun _ _ => true) {} (b "/shop") (patText p) == some true
+      | none => false)) = true := by decide
 
 end C03
